@@ -1068,6 +1068,10 @@ func (f *formatter) ExprArrayItem(n *ast.ExprArrayItem) {
 		f.addFreeFloating(token.T_WHITESPACE, []byte(" "))
 	}
 
+	if n.AmpersandTkn != nil {
+		n.AmpersandTkn = f.newToken('&', []byte("&"))
+	}
+
 	if n.Val != nil {
 		n.Val.Accept(f)
 	}
@@ -2017,6 +2021,8 @@ func (f *formatter) NameName(n *ast.Name) {
 			separatorTkns[i] = f.newToken(token.T_NS_SEPARATOR, []byte("\\"))
 		}
 	}
+
+	n.SeparatorTkns = separatorTkns
 }
 
 func (f *formatter) NameFullyQualified(n *ast.NameFullyQualified) {
@@ -2030,6 +2036,8 @@ func (f *formatter) NameFullyQualified(n *ast.NameFullyQualified) {
 			separatorTkns[i] = f.newToken(token.T_NS_SEPARATOR, []byte("\\"))
 		}
 	}
+
+	n.SeparatorTkns = separatorTkns
 }
 
 func (f *formatter) NameRelative(n *ast.NameRelative) {
@@ -2044,6 +2052,8 @@ func (f *formatter) NameRelative(n *ast.NameRelative) {
 			separatorTkns[i] = f.newToken(token.T_NS_SEPARATOR, []byte("\\"))
 		}
 	}
+
+	n.SeparatorTkns = separatorTkns
 }
 
 func (f *formatter) NameNamePart(n *ast.NamePart) {
